@@ -58,6 +58,15 @@ def sha256d(b):
     return hashlib.sha256(hashlib.sha256(b).digest()).digest()
 
 
+class OwnBlockRejected(Exception):
+    """the repository's own block assembly produced a block that its own full validation rejects
+    (C05 last sentence / C12): raised by the chain builder with the evidence attached"""
+
+    def __init__(self, violation):
+        super().__init__(violation.get("kind"))
+        self.violation = violation
+
+
 class Driver:
     """the Lean model behind its line protocol; batch mode: all lines in, all lines out"""
 
